@@ -42,6 +42,25 @@ def _eval_mutant(args):
     return mid, ("fired" if new else "silent"), "", rules
 
 
+def _eval_variant(args):
+    prop, name = args
+    from ..cli import build_run
+    from .variants import VARIANTS
+
+    base = SourceSet.load()
+    try:
+        v = VARIANTS[name](base)
+        run = build_run(prop, "quick", v)
+        new, _m, short = run.classify()
+    except AnalysisError as e:
+        return name, "analysis-error", str(e), []
+    except Exception as e:  # pragma: no cover
+        return name, "crash", "".join(traceback.format_exception_only(type(e), e)).strip(), []
+    if short:
+        return name, "analysis-error", "; ".join(short), []
+    return name, ("fired" if new else "silent"), "", sorted({x.rule for x in new})
+
+
 def run(prop: str) -> int:
     from ..cli import build_run, load_prop
 
@@ -65,6 +84,14 @@ def run(prop: str) -> int:
                 results = list(ex.map(_eval_mutant, jobs))
         except Exception:
             results = [_eval_mutant(j) for j in jobs]
+    from .variants import VARIANTS
+
+    vjobs = [(prop, name) for name in VARIANTS]
+    try:
+        with ProcessPoolExecutor(max_workers=len(vjobs)) as ex:
+            vresults = list(ex.map(_eval_variant, vjobs))
+    except Exception:
+        vresults = [_eval_variant(j) for j in vjobs]
     by_id = {m.id: m for m in mutants}
     killed = survived = twins_ok = twins_flagged = skipped = 0
     problems: list[str] = []
@@ -93,11 +120,19 @@ def run(prop: str) -> int:
             else:
                 twins_flagged += 1
                 problems.append(f"behaviour-preserving twin {mid} was flagged ({status} {rules} {info})")
+    for name, status, info, rules in vresults:
+        table.append({"id": f"variant:{name}", "expect": "silent", "status": status, "rules": rules, "info": info})
+        if status == "silent":
+            twins_ok += 1
+        else:
+            twins_flagged += 1
+            problems.append(f"whole-package behaviour-preserving variant `{name}` was flagged ({status} {rules} {info})")
     main.extra["sensitivity_audit"] = {
         "mutants": len([m for m in mutants if m.expect == "fire"]),
         "killed": killed,
         "survived": survived,
-        "twins": len([m for m in mutants if m.expect == "silent"]),
+        "twins": len([m for m in mutants if m.expect == "silent"]) + len(vresults),
+        "whole_package_variants": [name for name, *_ in vresults],
         "twins_silent": twins_ok,
         "twins_flagged": twins_flagged,
         "skipped": skipped,
